@@ -252,7 +252,9 @@ theorem serverJoinOne_pinv {c c' : Ctx} {m : IrcMsg} {chn : String} (h : PInv c.
   · dsimp only at hr
     split at hr
     · cases hr; exact h.sendSvc _
-    · obtain ⟨c1, h1, hr⟩ := Res.bind_eq_ok.1 hr
+    · split at hr
+      · cases hr; exact h.sendSvc _
+      obtain ⟨c1, h1, hr⟩ := Res.bind_eq_ok.1 hr
       obtain ⟨sp, _, hr⟩ := Res.bind_eq_ok.1 hr
       obtain ⟨rc, _, hr⟩ := Res.bind_eq_ok.1 hr
       cases hr
@@ -309,6 +311,9 @@ theorem cmdServerSvsjoin_pinv {c c' : Ctx} {sid : Id} {m : IrcMsg} (h : PInv c.s
     · obtain ⟨pn, _, hr⟩ := Res.bind_eq_ok.1 hr
       cases hr; exact h.sendSvc _
     · simp only [getChan_eq, putChan_putChan] at hr
+      split at hr
+      · obtain ⟨pn, _, hr⟩ := Res.bind_eq_ok.1 hr
+        cases hr; exact h.sendSvc _
       split at hr
       · cases hr
         exact h.putChan _ _
